@@ -1,6 +1,10 @@
 #!/usr/bin/env python3
 """Prints the seeded-change table (markdown) from /verif/seeded/*/meta.json."""
 import json, glob, os
+# seeds that the check first missed and that are caught since the space was widened (DESIGN.md §10 says how);
+# from round 3 on the run history in meta.json records this by itself
+WIDENED = set("""C01-a C15-a C16-b C18-b C19-a C19-b C02-d C03-c C04-c C04-d C06-d C01-c C08-c C08-d C09-c C09-d C11-d C12-c C13-d C14-d
+C15-c C15-d C16-c C19-c C19-d C20-d C01-e C01-f C02-f C04-e C04-f C06-f C08-f C09-e C10-f C15-f C19-f C13-f C14-e C14-f C16-e C17-e C18-f C20-e""".split())
 print("| seed | what the change needs to manifest (agent's note, first line) | suite green | demo fails with / passes without | caught by |")
 print("|---|---|---|---|---|")
 for d in sorted(glob.glob('/verif/seeded/*/')):
@@ -12,6 +16,10 @@ for d in sorted(glob.glob('/verif/seeded/*/')):
     caught = [f"{c} {v['tier']}" for c, v in m.get('checks', {}).items() if v.get('exit') == 1]
     missed = [f"{c} {v['tier']}" for c, v in m.get('checks', {}).items() if v.get('exit') != 1]
     res = ', '.join(caught) if caught else '**missed**'
+    name = os.path.basename(d.rstrip('/'))
+    hist = m.get('history', [])
+    first_missed = name in WIDENED or any(h['exit'] == 0 for h in hist[:1] if h['check'] == name[:3])
+    if caught and first_missed: res += ' — after the space was widened (§10)'
     if caught and missed: res += ' (not by ' + ', '.join(missed) + ')'
     ok = m.get('demo_exit_with_change', 0) != 0 and m.get('demo_exit_without_change', 1) == 0
     print(f"| {os.path.basename(d.rstrip('/'))} | {first} | {'yes' if m.get('suite_failures_with_change') == 0 else 'NO'} | {'yes' if ok else 'NO (seed no longer valid on this tree)'} | {res} |")
